@@ -9,7 +9,7 @@
               | 3 k b1..bk = bytes | 4 k v1..vk = list / struct of k (nullable) children.
    Options are a group [nulls_first; descending]; an optional limit is an empty or one-element group. *)
 From Coq Require Import List ZArith NArith String Bool Arith.
-From AV Require Import Base.Codec Model.C10_Order Model.C10_Sort Model.C10_Rank.
+From AV Require Import Base.Codec Model.C10_Order Model.C10_Sort Model.C10_Rank Model.C10_Heap.
 Import ListNotations.
 Local Open Scope string_scope.
 
@@ -105,6 +105,16 @@ Definition s_lexsort_check (a : args) : list (list Z) :=
   let n := match cols with (_, _, c0) :: _ => List.length c0 | [] => O end in
   ok_out (sort_check (lex_idx cols) (seq 0 n) (optn (arg 0 rest)) (nats_of (arg 1 rest))).
 
+(* ---- lexsort_topk: [ncols] ([type] [layout] [values] [nf; desc])^ncols [limit] -> the bounded-heap path of
+        lexsort_to_indices (limit <= n/10, >= 2 columns), each index replaced by the first row that compares Equal *)
+Definition d_lexsort_topk (a : args) : list (list Z) :=
+  let k := argn 0 a in
+  let cs := get_cols k 4 (tl a) in
+  let cols : list column := map (fun c => (nf_of (arg 3 c), desc_of (arg 3 c), parse_col (arg 2 c))) cs in
+  let rest := skipn (4 * k) (tl a) in
+  let n := match cols with (_, _, c0) :: _ => List.length c0 | [] => O end in
+  [ zs_of_nats (canon (lex_idx cols) (seq 0 n) (lexsort_topk isort n (argn 0 rest) (lex_idx cols))) ].
+
 (* ---- partial_sort_check: [values (integers)] [limit] [out: the index vector after partial_sort] -> [1] | [0; code]
         out must be a permutation of 0..n whose first `limit` entries satisfy the sort predicate *)
 Definition s_partial_sort_check (a : args) : list (list Z) :=
@@ -183,6 +193,7 @@ Definition ops_C10 : list (string * opfun) :=
     ("c10.sort_to_indices", d_sort_to_indices);
     ("c10.sort.spec", s_sort);
     ("c10.lexsort_check.spec", s_lexsort_check);
+    ("c10.lexsort_topk", d_lexsort_topk);
     ("c10.partial_sort_check.spec", s_partial_sort_check);
     ("c10.rank", d_rank); ("c10.rank.spec", s_rank);
     ("c10.partition", d_partition); ("c10.partition.spec", s_partition);
